@@ -300,7 +300,11 @@ def canon_model_token(tok, sort_within):
 def run_chunk(args):
     """worker entry: (exe, cfg, [(idx, events)], retries) -> [(idx, tokens, notes)], (rc, stderr)"""
     exe, cfg, hists = args
-    bus = Bus(exe, cfg)
+    try:
+        bus = Bus(exe, cfg)
+    except (IOError, OSError):
+        time.sleep(0.2)
+        bus = Bus(exe, cfg)          # one retry: a loaded machine can miss the 10 s start-up window
     res = []
     try:
         for h in hists:
